@@ -1,9 +1,138 @@
+import RsslVerif.Model.Usage
 import RsslVerif.Driver.Util
-/-! Line-protocol front end of the C02 model (stub until the model is built). -/
+/-! Line-protocol front end of the C02 model (usage closure + implicit parameter threading on Metal).
+
+request : `C02.thread \t <globals> \t <functions> \t <entry index | ->`
+  global   `name:<E|S|G>[c][x][o]@<read class>[:<init global indexes, comma separated>]`   (`;` separated)
+  function `name:<modes i|o|b|d … or ->:<items or ->`                                        (`;` separated)
+  item     `<position code>.g<k>`  |  `<position code>.c<j>[/<_|g<k>>]…`                     (`,` separated)
+answer  : `defs:<definition> …|close:<f>={…};…|entry:…`
+-/
 namespace RsslVerif.Driver.C02
+open RsslVerif.Gen.UsageTables RsslVerif.Model.Usage RsslVerif.Driver
+
+def parseGlobal (s : String) : Option Global :=
+  match s.splitOn ":" with
+  | name :: flags :: rest =>
+    match flags.splitOn "@" with
+    | [fl, cls] =>
+      let cs := fl.toList
+      let storage : Option Storage := match cs.head? with
+        | some 'E' => some .Extern | some 'S' => some .Static | some 'G' => some .GroupShared | _ => none
+      match storage, readPaths.lookup cls with
+      | some st, some rp =>
+        let inits : Option (List Nat) := match rest with
+          | [] => some []
+          | [l] => if l.isEmpty then some [] else sequenceOpt ((l.splitOn ",").map String.toNat?)
+          | _ => none
+        inits.map fun is =>
+          { name := name, storage := st, isConst := cs.contains 'c', staticSampler := cs.contains 'x',
+            isObject := cs.contains 'o', readPath := rp, initUses := is.map fun g => ([], g) }
+      | _, _ => none
+    | _ => none
+  | _ => none
+
+def parseMode (c : Char) : Option ParamMode :=
+  if c == 'i' then some .in_ else if c == 'o' then some .out else if c == 'b' then some .inout
+  else if c == 'd' then some .inDefault else none
+
+def parseIndexed (pre : Char) (s : String) : Option Nat :=
+  match s.toList with
+  | c :: r => if c == pre then (String.ofList r).toNat? else none
+  | [] => none
+
+def parseArg (s : String) : Option SrcArg :=
+  if s == "_" then some none else (parseIndexed 'g' s).map some
+
+def parseItem (s : String) : Option Item :=
+  match s.splitOn "." with
+  | [code, what] =>
+    match placeOfCode code with
+    | none => none
+    | some pl =>
+      match what.splitOn "/" with
+      | [] => none
+      | h :: args =>
+        if h.startsWith "g" then
+          if args.isEmpty then (parseIndexed 'g' h).map (Item.use pl) else none
+        else
+          match parseIndexed 'c' h, sequenceOpt (args.map parseArg) with
+          | some f, some as => some (.call pl f as)
+          | _, _ => none
+  | _ => none
+
+def parseFunc (s : String) : Option Func :=
+  match s.splitOn ":" with
+  | [name, modes, items] =>
+    let ms := if modes == "-" then some [] else sequenceOpt (modes.toList.map parseMode)
+    let its := if items == "-" then some [] else sequenceOpt ((items.splitOn ",").map parseItem)
+    match ms, its with
+    | some ms, some its => some { name := name, params := ms, items := its }
+    | _, _ => none
+  | _ => none
+
+def parseList {α : Type} (f : String → Option α) (s : String) : Option (List α) :=
+  if s.isEmpty || s == "-" then some [] else sequenceOpt ((s.splitOn ";").map f)
+
+def sortStrings (l : List String) : List String := l.mergeSort fun a b => !(b < a)
+
+def showErr : GenErr → String
+  | .usage (.missingKey _) => "panic:ir/src/usage_analysis.rs: called `Option::unwrap()` on a `None` value"
+  | .outOfFuel => "error:out-of-fuel"
+  | .badGlobal g => "error:bad-global-" ++ toString g
+  | .badFunction f => "error:bad-function-" ++ toString f
+
+def requiredAll (p : Program) (cl : Table) : Nat → Except GenErr (List (List Implicit))
+  | 0 => .ok []
+  | n + 1 =>
+    match requiredAll p cl n, requiredOf p cl n with
+    | .ok l, .ok r => .ok (l ++ [r])
+    | .error e, _ => .error e
+    | _, .error e => .error e
+
+def entryText (c : Ctx) (e : Nat) : String :=
+  match c.prog.funcs[e]? with
+  | none => "?"
+  | some fd =>
+    let req := c.req e
+    let isLocal (i : Implicit) : Bool := i.variant == globalVariant &&
+      match c.prog.globals[i.payload]? with
+      | some g => g.storage != .Extern
+      | none => false
+    let argOf (i : Implicit) : String :=
+      if i.variant == globalVariant && !isLocal i then "set." ++ implicitArgName c.prog i
+      else implicitArgName c.prog i
+    "locals=" ++ ",".intercalate ((req.filter isLocal).map (implicitArgName c.prog)) ++
+    ";call=" ++ fd.name ++ "(" ++ ",".intercalate (fd.params.map (fun _ => "_") ++ req.map argOf) ++ ")"
+
+def answer (p : Program) (entry : Option Nat) : String :=
+  let keys := keysOf (calculateLocal p)
+  match closeProgram p keys with
+  | .error e => showErr e
+  | .ok cl =>
+    match requiredAll p cl p.funcs.length with
+    | .error e => showErr e
+    | .ok req =>
+      let c : Ctx := { prog := p, required := req }
+      let called := calledFunctions p cl
+      let defs := (List.range p.funcs.length).flatMap fun i =>
+        match p.funcs[i]? with | some fd => defsText c called i fd | none => []
+      let close := (List.range p.funcs.length).map fun i =>
+        symName p (.fn i) ++ "={" ++ ",".intercalate (sortStrings ((val cl (.fn i)).map (symName p))) ++ "}"
+      "defs:" ++ " ".intercalate defs ++ "|close:" ++ ";".intercalate close ++ "|entry:" ++
+        (match entry with | some e => entryText c e | none => "-")
 
 def handle (op : String) (args : List String) : String :=
-  let _ := (op, args)
-  "unsupported-op"
+  match op, args with
+  | "C02.thread", [gs, fs, e] =>
+    match parseList parseGlobal gs, parseList parseFunc fs with
+    | some gs, some fs =>
+      let entry : Option (Option Nat) := if e == "-" then some none else e.toNat?.map some
+      match entry with
+      | some en => answer { globals := gs, funcs := fs } en
+      | none => "bad-request"
+    | _, _ => "bad-request"
+  | "C02.src", _ => "unsupported: free-form source (oracle only)"
+  | _, _ => "unsupported-op"
 
 end RsslVerif.Driver.C02
